@@ -49,6 +49,27 @@ func pemOnce(name string) []byte {
 	return b
 }
 
+// clusterBase is the directory the clusters live in: the check's work directory when the
+// unprivileged server processes can reach it (every path component searchable by others),
+// otherwise a scratch directory of this run under the system's temporary directory.
+func clusterBase() string {
+	w := os.Getenv("VERIF_WORK")
+	ok := w != ""
+	for p := w; ok && p != "/" && p != "."; p = filepath.Dir(p) {
+		fi, err := os.Stat(p)
+		if err != nil || fi.Mode().Perm()&0o001 == 0 {
+			ok = false
+		}
+	}
+	if ok {
+		return w
+	}
+	d := filepath.Join(os.TempDir(), fmt.Sprintf("verif-cluster-%d", os.Getpid()))
+	os.MkdirAll(d, 0o777)
+	os.Chmod(d, 0o777)
+	return d
+}
+
 func freePort() int {
 	l, err := net.Listen("tcp", "127.0.0.1:0")
 	if err != nil {
@@ -61,7 +82,7 @@ func freePort() int {
 // startCluster starts n servers with the given "Server" configuration section.
 func startCluster(n int, serverCfg map[string]interface{}) *cluster {
 	seq := atomic.AddInt32(&clusterSeq, 1)
-	dir := filepath.Join(os.Getenv("VERIF_WORK"), fmt.Sprintf("cluster-%d-%d", os.Getpid(), seq))
+	dir := filepath.Join(clusterBase(), fmt.Sprintf("cluster-%d-%d", os.Getpid(), seq))
 	os.RemoveAll(dir)
 	must := func(err error) {
 		if err != nil {
@@ -173,4 +194,7 @@ func (c *cluster) stop() {
 		}
 	}
 	os.RemoveAll(c.dir)
+	if base := filepath.Dir(c.dir); base != os.Getenv("VERIF_WORK") {
+		os.Remove(base) // the scratch base of this run, once its last cluster is gone
+	}
 }
